@@ -346,10 +346,11 @@ pub(crate) unsafe fn patch_function(func: *mut u8, patch: &[u8]) {
         VM_INHERIT_NONE,
     );
 
+    // Cover the whole patch: it may reach into the next page (a 12-byte patch at page end - 8).
     mach_vm_protect(
         mach_task_self(),
         remap,
-        0x8,
+        patch.len() as u64,
         0,
         VM_PROT_READ | VM_PROT_WRITE | VM_PROT_COPY,
     );
@@ -361,7 +362,7 @@ pub(crate) unsafe fn patch_function(func: *mut u8, patch: &[u8]) {
     mach_vm_protect(
         mach_task_self(),
         remap,
-        0x8,
+        patch.len() as u64,
         0,
         VM_PROT_READ | VM_PROT_EXECUTE,
     );
